@@ -342,6 +342,25 @@ var hashioImpl = map[string]core.Adapter{
 			fmt.Fprintf(&doc, "Checksums-Sha512:\n %x %d file\n", d512, len(content))
 		}
 		var bc control.BestChecksums
+		if len(content)%2 == 0 {
+			// the variable held the previous paragraph of the index (same fields, as many entries,
+			// another file) and its selector was used: a loop over Packages / Sources with one variable
+			prev := append([]byte("previous package "), content...)
+			p256, _ := digestOf("sha256", prev)
+			p512, _ := digestOf("sha512", prev)
+			var pdoc strings.Builder
+			if with256 {
+				fmt.Fprintf(&pdoc, "Checksums-Sha256:\n %x %d previous\n", p256, len(prev))
+			}
+			if with512 {
+				fmt.Fprintf(&pdoc, "Checksums-Sha512:\n %x %d previous\n", p512, len(prev))
+			}
+			if pdoc.Len() > 0 && control.Unmarshal(&bc, strings.NewReader(pdoc.String())) == nil {
+				for _, fh := range bc.Checksums() {
+					fh.Verifier()
+				}
+			}
+		}
 		if err := control.Unmarshal(&bc, strings.NewReader(doc.String())); err != nil {
 			return "FAIL " + err.Error()
 		}
